@@ -223,11 +223,30 @@ first occurrence (`Py.distinct`; the element may raise or be a recursive call, e
 kept this way is faithful for what does not depend on the iteration order of a Python set - `len`, truth value, `in`;
 every other use of it (iteration, `s.pop()`) must be named by an external of the profile, which has to say what it means.
 
+Sets of strings and sorting (added for `Function.format_infix`, profiles `wave5z.py`; run-time primitives in
+`Base/PySet.lean`, which the `imports` of the generated file must contain).  A Python `set` is kept as a list without
+repetitions whose *order means nothing* (type `Py.SetOf T`); it can only be built and consumed by operations whose result
+does not depend on the iteration order of the set:
+
+* `set(l)` for a list `l` is `Py.SetOf.ofList l` (repetitions removed); `s.union(t)` is `Py.SetOf.union s t` and `s - t`
+  (also `s -= t`) is `Py.SetOf.diff s t`, where `t` is a set or a list (a set display of constants is the list of its
+  elements, as before);
+* `sorted(s)` / `sorted(s, reverse=True)` of a set or list of *strings* is `Py.sortedAsc` / `Py.sortedDesc`: strings
+  compare by code points, lexicographically, in Python and in Lean alike (equal elements are equal strings, so the
+  stability of Python's sort has nothing to observe);
+* `from .m import N` inside the function binds `N` for the translation-time constants (`Rule.AND`), like a name of the
+  module's namespace;
+* the parts of an f-string may raise (`f"{node.value()} {children[0]}"`): they are evaluated left to right, the first
+  exception ends the evaluation, then the texts are concatenated; a recursive call
+  in expression position may pass an object for a parameter `T | None` (`self.prefix(self)`: the argument is `some self`);
+* a `Py.SetOf` is not iterable in the subset (no `for`, no comprehension over it: the order would be observable).
+
 Anything outside the subset raises `Untranslatable` - the tie is then reported as broken (never silently skipped).
 """
 from __future__ import annotations
 
 import ast
+import importlib
 import inspect
 import re
 import textwrap
@@ -805,6 +824,9 @@ class Fn:
                 if n.ty == "Nat":
                     return self.bind2(x, n, lambda a, b: f"(List.replicate {b} {a})", f"List {paren(x.ty)}")
             l, r = self.num(self.ce(node.left)), self.num(self.ce(node.right))
+            if isinstance(node.op, ast.Sub) and l.ty.startswith("Py.SetOf ") and r.ty in (l.ty, "List " + l.ty[len("Py.SetOf "):]):
+                # `s - t` on sets (the right operand a set or the list of a set display)
+                return self.bind2(l, r, lambda a, b: f"(Py.SetOf.diff {paren(a)} {paren(b)})", l.ty)
             if isinstance(node.op, (ast.Add, ast.Sub, ast.Mult)) and {l.ty, r.ty} & {"Nat", "Int", "X Rat"}:
                 # Python's bool is an int: a truth value next to a number counts 0 / 1
                 if l.ty == "Bool":
@@ -888,6 +910,28 @@ class Fn:
                 return self.bind1(self.ce(node.args[0]), lambda x: f"({x}).length", "Nat")
             if isinstance(f, ast.Name) and f.id == "bool" and len(node.args) == 1 and not node.keywords:
                 return self.truthy(self.ce(node.args[0]))
+            if isinstance(f, ast.Name) and f.id == "set" and len(node.args) == 1 and not node.keywords:
+                # `set(l)`: the elements of a list without repetitions, in no particular order
+                a = self.ce(node.args[0])
+                if a.ty.startswith("List ") and "_" not in a.ty:
+                    return self.bind1(a, lambda x: f"(Py.SetOf.ofList {paren(x)})", "Py.SetOf " + a.ty[len("List "):])
+                raise Untranslatable(f"set() of {a.ty}")
+            if isinstance(f, ast.Attribute) and f.attr == "union" and len(node.args) == 1 and not node.keywords:
+                a = self.ce(f.value)
+                if a.ty.startswith("Py.SetOf "):
+                    b = self.ce(node.args[0])
+                    if b.ty not in (a.ty, "List " + a.ty[len("Py.SetOf "):]):
+                        raise Untranslatable(f"union of {a.ty} with {b.ty}")
+                    return self.bind2(a, b, lambda x, y: f"(Py.SetOf.union {paren(x)} {paren(y)})", a.ty)
+            if (isinstance(f, ast.Name) and f.id == "sorted" and len(node.args) == 1
+                    and all(kw.arg == "reverse" and isinstance(kw.value, ast.Constant) and isinstance(kw.value.value, bool)
+                            for kw in node.keywords) and len(node.keywords) <= 1):
+                # `sorted(s)` / `sorted(s, reverse=True)` of strings: code-point lexicographic order
+                a = self.ce(node.args[0])
+                if a.ty in ("Py.SetOf String", "List String"):
+                    desc = bool(node.keywords) and node.keywords[0].value.value
+                    return self.bind1(a, lambda x: f"(Py.sorted{'Desc' if desc else 'Asc'} {paren(x)})", "List String")
+                raise Untranslatable(f"sorted() of {a.ty}")
             if (isinstance(f, ast.Name) and f.id in ("all", "any") and len(node.args) == 1 and not node.keywords
                     and isinstance(node.args[0], ast.GeneratorExp)):
                 gen = node.args[0]
@@ -1006,7 +1050,7 @@ class Fn:
                 src = f"(List.filter (fun (p : {ety}) => {c.term}) {src})"
             return E(f"(List.map (fun (p : {ety}) => ({k.term}, {v.term})) {src})", f"List ({k.ty if '×' not in k.ty and '→' not in k.ty else paren(k.ty)} × {v.ty if '×' not in v.ty and '→' not in v.ty else paren(v.ty)})")
         if isinstance(node, ast.JoinedStr):
-            parts = []
+            parts, binds = [], []
             for v in node.values:
                 if isinstance(v, ast.FormattedValue):
                     if v.conversion not in (-1, 114) or v.format_spec is not None:
@@ -1024,10 +1068,21 @@ class Fn:
                         continue
                     v = v.value
                 e = self.ce(v)
-                if e.ty != "String" or not e.pure:
+                if e.ty != "String":
                     raise Untranslatable(f"f-string part of type {e.ty}: {ast.unparse(node)}")
+                if not e.pure:
+                    # a part that can raise: the parts are evaluated left to right, then concatenated
+                    binds.append((f"s{len(binds)}", e.term))
+                    parts.append(binds[-1][0])
+                    continue
                 parts.append(e.term)
-            return E("(" + " ++ ".join(parts) + ")" if parts else '""', "String")
+            body = "(" + " ++ ".join(parts) + ")" if parts else '""'
+            if binds:
+                body = f".ok {body}"
+                for nm, t in reversed(binds):
+                    body = f"({t} >>= fun {nm} => {body})"
+                return E(body, "String", False)
+            return E(body, "String")
         raise Untranslatable(f"expression {ast.unparse(node)}")
 
     def _pure_pair(self, node):
@@ -1160,6 +1215,17 @@ class Fn:
             if pure:
                 return f"let σ := {term}\n{after()}"
             return f"{self.lift(term)} >>= fun σ =>\n{after()}"
+        if isinstance(s, ast.ImportFrom) and s.level > 0 and s.module:
+            # `from .rule import Rule` inside the function: the names are constants of the translation from here on
+            # (resolved like the module-level names; a name the function never evaluates stays unused)
+            try:
+                mod = importlib.import_module("." * s.level + s.module, self.p["module"].rpartition(".")[0])
+                for a in s.names:
+                    if a.name != "*" and (a.asname or a.name) not in self.glob:
+                        self.glob[a.asname or a.name] = getattr(mod, a.name)
+            except Exception:  # noqa: BLE001  (as before: an import that cannot be resolved binds nothing)
+                pass
+            return after()
         if isinstance(s, (ast.Import, ast.ImportFrom, ast.Pass)):
             return after()
         if isinstance(s, ast.Expr) and isinstance(s.value, ast.Call) and any(match_pattern(p, s.value, {}) for p in self.skips):
@@ -1693,6 +1759,8 @@ class Fn:
             a = self.ce(holes[pn])
             if a.ty in (f"Option {pt}", f"Option {paren(pt)}"):
                 a = self.bind1(a, lambda x: f"(Py.deref {x})", pt, partial=True)      # `None.method(...)` is an AttributeError
+            if pt in (f"Option {a.ty}", f"Option {paren(a.ty)}"):
+                a = self.bind1(a, lambda x: f"(some {x})", pt)       # an object passed for a parameter `T | None`
             if a.ty != pt:
                 raise Untranslatable(f"recursive call: argument for '{pn}' has type {a.ty} (expected {pt})")
             if a.pure:
